@@ -326,7 +326,8 @@ def plan(tier, seed):
                 continue
             if kind == "op" and max(na, nb) > 2:
                 continue
-            q = "quick" if ((na, nb) in quick_sizes or (kind == "mem" and na == 2)) else ("rot" if max(na, nb) < 3 else "thorough")
+            # membership: the empty set too (its element kind differs from the element's: seeded change C14-4)
+            q = "quick" if ((na, nb) in quick_sizes or (kind == "mem" and na in (0, 2))) else ("rot" if max(na, nb) < 3 else "thorough")
             h = gen_setop(op, na, nb, q)
             if kind == "op":
                 h.tier = "off"
